@@ -1995,6 +1995,9 @@ class Parallel(Logger):
         # callback.
         with self._lock:
             self._call_id = uuid4().hex
+            # Pre-sliced batches that a previous, aborted call did not
+            # dispatch must not leak into this call.
+            self._ready_batches = queue.Queue()
 
         # self._effective_n_jobs should be called in the Parallel.__call__
         # thread only -- store its value in an attribute for further queries.
